@@ -56,11 +56,13 @@ private:
         }
         else if(t.presence == field_presence::required)
         {
-            return {"min_value", "max_value"};
+            // `value` is inherited from the base class but the class name
+            // would hide it
+            return {"min_value", "max_value", "value"};
         }
         else
         {
-            return {"min_value", "max_value", "null_value"};
+            return {"min_value", "max_value", "null_value", "value"};
         }
     }
 
